@@ -281,7 +281,8 @@ def _check(col, ZConfig, schema, root, n, sname, lines, cuts, inl, zz,
                   "outcome with %%include (placements %s) differs from the "
                   "inlined text" % placements, inp,
                   cs.brief(inl) if inl[0] != "ok" else ["ok", repr(inl[1])],
-                  cs.brief(got) if got[0] != "ok" else ["ok", repr(got[1])])
+                  cs.brief(got).replace(sub, "<root>") if got[0] != "ok"
+                  else ["ok", repr(got[1])])
 
 
 def work(item):
